@@ -158,6 +158,7 @@ func Check(r *ev.Run, replay string) {
 		progen.F7(y)
 		progen.F4c(2, y)
 		progen.F8(false, y)
+		progen.F9(y)
 		if r.Thorough() {
 			progen.F8(true, y)
 		}
